@@ -18,6 +18,9 @@ FIXED_ENVIRON = {
 }
 
 
+WORLD_MTIME = 1_000_000_000
+
+
 def install_fixed_environ():
     os.environ.clear()
     os.environ.update(FIXED_ENVIRON)
@@ -42,6 +45,9 @@ class World:
         os.makedirs(os.path.dirname(p), exist_ok=True)
         with open(p, 'wb') as f:
             f.write(data if data is not None else text.encode('utf-8', errors='surrogateescape'))
+        # the files of the world are written "at simulated time 0": one fixed modification time, whatever the wall
+        # clock says (so nothing can depend on how fast the harness wrote them - and equal times are the rule)
+        os.utime(p, (WORLD_MTIME, WORLD_MTIME))
         if mode is not None:
             os.chmod(p, mode)
         return p
